@@ -464,6 +464,8 @@ STR_VAL_SETS = [
     ["min", "not_empty"], ["P0"], ["P1", "max"], ["R0"], ["not_empty", "min", "R2"], ["R1p", "max"],
     ["max", "not_empty", "P0"], ["C"], ["R0p", "min"], ["not_empty", "min", "max", "P1", "R1"], ["R3"], ["R3p", "max"], ["min", "R3"],
     ["R2", "P0", "max", "min", "not_empty"], ["R4"], ["R4p", "max"],
+    # a predicate that is only defined on what the rules written before it let through
+    ["not_empty", "P2"], ["not_empty", "max", "P2"],
 ]
 REGEX_LITS = ["^[a-z]+$", "@", "^.{2,4}$", "b{2}", "(?i)^k[0-9]+$"]
 STR_DERIVES = ["Debug", "Clone", "PartialEq", "Eq", "PartialOrd", "Ord", "Hash", "FromStr", "AsRef",
@@ -1207,7 +1209,7 @@ def gen_msg_decls(rng, tier):
 
 # ---------------------------------------------------------------- serde corpus (C04, C10)
 
-def replace_derive(toks, traits):
+def replace_derive(toks, traits, keep_default=False):
     out = []
     i = 0
     while i < len(toks):
@@ -1215,7 +1217,7 @@ def replace_derive(toks, traits):
         if t[0] == "id" and t[1] == "derive" and i + 1 < len(toks) and toks[i + 1][0] == "g":
             out += derive_block(traits)
             i += 2
-        elif t[0] == "id" and t[1] == "default":
+        elif t[0] == "id" and t[1] == "default" and not keep_default:
             # drop `default = ..` (and its separating comma) : Default is not derived here
             i += 3
             if i < len(toks) and toks[i][0] == "c":
@@ -1238,7 +1240,12 @@ def gen_serde_decls(rng, tier):
             continue
         has_val = any(t[0] == "id" and t[1] == "validate" for t in d.toks)
         conv = ["TryFrom"] if len(out) % 2 == 0 else ([] if has_val else ["From"])
-        d.toks = replace_derive(d.toks, ["Debug", "Clone", "PartialEq", "Serialize", "Deserialize"] + conv)
+        # every other defaulted declaration keeps `default = ..` and derives Default: a default must not
+        # leak into (de)serialization
+        has_default = any(t[0] == "id" and t[1] == "default" for t in d.toks)
+        keep = has_default and len(out) % 2 == 1
+        d.toks = replace_derive(d.toks, ["Debug", "Clone", "PartialEq", "Serialize", "Deserialize"] + conv + (["Default"] if keep else []),
+                                keep_default=keep)
         d.id = "z" + d.id
         if d.name == "T":
             d.name = ["T", "Amount", "Px"][len(out) % 3]
